@@ -483,8 +483,48 @@ Section PoolLemmas.
   Proof.
     unfold Chain.add_block, add_block_raw.
     destruct (last_block (chain c)) as [lb|].
-    - destruct (apply_block (ur c) (ar c) lb) as [[u' a']|e]; intros E; inversion E; reflexivity.
+    - destruct (ts <=? b_ts lb); [discriminate|].
+      destruct (apply_block (ur c) (ar c) lb) as [[u' a']|e]; intros E; inversion E; reflexivity.
     - intros E; inversion E; reflexivity.
+  Qed.
+
+  (* AddBlock refuses a block that is not dated after the tip (blockchain.go AddBlock) *)
+  Lemma add_block_after_tip c ts l addrs c' :
+    add_block c ts l addrs = Ok c' -> chain c <> [] -> last_block_ts (chain c) < ts.
+  Proof.
+    unfold Chain.add_block, last_block_ts, last_block.
+    destruct (rev (chain c)) as [|lb r] eqn:Er.
+    - intros _ Hne. exfalso. apply Hne. rewrite <- (rev_involutive (chain c)), Er. reflexivity.
+    - destruct (Z.leb_spec ts (b_ts lb)) as [A|A]; [discriminate|]. intros _ _. exact A.
+  Qed.
+
+  (* what is left of AddBlock once the date check has passed *)
+  Lemma add_block_raw_eq c ts l addrs :
+    chain c = [] \/ last_block_ts (chain c) < ts ->
+    add_block c ts l addrs = add_block_raw c (make_block c ts l addrs).
+  Proof.
+    unfold Chain.add_block, last_block_ts, last_block.
+    destruct (rev (chain c)) as [|lb r] eqn:Er; [reflexivity|].
+    intros [E|A].
+    - rewrite E in Er. discriminate.
+    - destruct (Z.leb_spec ts (b_ts lb)) as [B|B]; [lia|reflexivity].
+  Qed.
+
+  (* a successful AddBlock is a successful addBlock of the block it has made *)
+  Lemma add_block_ok_raw c ts l addrs c' :
+    add_block c ts l addrs = Ok c' -> add_block_raw c (make_block c ts l addrs) = Ok c'.
+  Proof.
+    unfold Chain.add_block. destruct (last_block (chain c)) as [lb|]; [|exact (fun E => E)].
+    destruct (ts <=? b_ts lb); [discriminate|exact (fun E => E)].
+  Qed.
+
+  Lemma add_block_time c ts l addrs :
+    chain c <> [] -> ts <= last_block_ts (chain c) -> add_block c ts l addrs = Err ETime.
+  Proof.
+    unfold Chain.add_block, last_block_ts, last_block.
+    destruct (rev (chain c)) as [|lb r] eqn:Er.
+    - intros Hne. exfalso. apply Hne. rewrite <- (rev_involutive (chain c)), Er. reflexivity.
+    - intros _ A. destruct (Z.leb_spec ts (b_ts lb)) as [B|B]; [reflexivity|lia].
   Qed.
 
   Lemma reward_tx_is_reward y ts v : is_reward (reward_tx y ts v) = true.
@@ -563,6 +603,25 @@ Section PoolLemmas.
     exact (greedy_no_reward _ _ _ _ _ _ Hfee Ht).
   Qed.
 
+  (* a produced block is dated after the tip: AddBlock would have refused it otherwise *)
+  Lemma validate_produced_after_tip n ts perm n' d :
+    validate n ts perm = (n', Produced d) ->
+    chain (n_c n) <> [] -> last_block_ts (chain (n_c n)) < ts.
+  Proof.
+    intros Hv Hne. unfold Pool.validate in Hv. cbv zeta in Hv.
+    destruct (negb (last_block_ts (chain (n_c n)) =? 0) && (last_block_ts (chain (n_c n)) =? ts));
+      [discriminate|].
+    destruct (negb (last_block_ts (chain (n_c n)) =? 0)
+              && (last_block_ts (chain (n_c n)) + s_interval S <? ts)); [discriminate|].
+    destruct (update_utxos (ur (n_c n)) (last_block_txs (chain (n_c n)))
+                (last_block_ts (chain (n_c n)))) as [u0|e0]; [|discriminate].
+    rewrite produce_loop_spec in Hv. cbv beta iota in Hv.
+    match type of Hv with
+    | match ?X with Ok _ => _ | Err _ => _ end = _ => destruct X as [c'|e1] eqn:E1
+    end; [|discriminate].
+    exact (add_block_after_tip _ _ _ _ _ E1 Hne).
+  Qed.
+
   (* item 6: a refused Validate leaves the blockchain and both registries alone; the pool
      keeps its elements, and is re-ordered (shuffled in place) only when AddBlock failed *)
   Lemma validate_refused_unchanged n ts perm n' e :
@@ -604,39 +663,76 @@ Section PoolLemmas.
   Qed.
 
   (* AddBlock re-does the check Validate has just made on its copy (apply the previous tip),
-     so in the sequential model it cannot fail there *)
+     so in the sequential model it cannot fail there once the block is dated after the tip *)
   Lemma add_block_ok_after_check c ts l addrs u0 :
+    chain c = [] \/ last_block_ts (chain c) < ts ->
     update_utxos (ur c) (last_block_txs (chain c)) (last_block_ts (chain c)) = Ok u0 ->
     exists c', add_block c ts l addrs = Ok c'.
   Proof.
-    unfold Chain.add_block, add_block_raw, last_block_txs, last_block_ts, apply_block.
+    intros Hts. rewrite (add_block_raw_eq _ _ _ _ Hts).
+    unfold add_block_raw, last_block_txs, last_block_ts, apply_block.
     destruct (last_block (chain c)) as [lb|]; intros E; [rewrite E|]; eexists; reflexivity.
   Qed.
 
-  (* hence a refused Validate leaves the whole node as it was, and the reasons are these three *)
+  (* the only refusal that does not leave the whole node as it was: a tick not after the tip
+     that passed the two tick checks (a tick before the tip, or a tip dated 0 and a tick <= 0)
+     reaches AddBlock, which refuses it; the pool has been shuffled in place by then *)
+  Lemma validate_refused_cases n ts perm n' e :
+    validate n ts perm = (n', Refused e) ->
+    (n' = n /\
+     (e = ESameTick \/ e = EMissedTick \/
+      update_utxos (ur (n_c n)) (last_block_txs (chain (n_c n))) (last_block_ts (chain (n_c n))) = Err e)) \/
+    (e = ETime /\ chain (n_c n) <> [] /\ ts <= last_block_ts (chain (n_c n)) /\
+     n' = mkNode (n_c n) (match n_pool n with
+                          | None => None
+                          | Some _ => Some (permute perm (elems (n_pool n)))
+                          end)).
+  Proof.
+    intros Hv. unfold Pool.validate in Hv. cbv zeta in Hv.
+    destruct (negb (last_block_ts (chain (n_c n)) =? 0) && (last_block_ts (chain (n_c n)) =? ts));
+      [inversion Hv; subst; left; split; [reflexivity|left; reflexivity]|].
+    destruct (negb (last_block_ts (chain (n_c n)) =? 0)
+              && (last_block_ts (chain (n_c n)) + s_interval S <? ts));
+      [inversion Hv; subst; left; split; [reflexivity|right; left; reflexivity]|].
+    destruct (update_utxos (ur (n_c n)) (last_block_txs (chain (n_c n)))
+                (last_block_ts (chain (n_c n)))) as [u0|e0] eqn:E0;
+      [|inversion Hv; subst; left; split; [reflexivity|right; right; reflexivity]].
+    rewrite produce_loop_spec in Hv. cbv beta iota in Hv.
+    match type of Hv with
+    | match ?X with Ok _ => _ | Err _ => _ end = _ => destruct X as [c'|e1] eqn:E1
+    end; [discriminate|].
+    inversion Hv; subst n' e. clear Hv. right.
+    destruct (chain (n_c n)) as [|b0 r0] eqn:Ec.
+    { match type of E1 with
+      | add_block ?c ?t ?l ?a = _ =>
+        destruct (add_block_ok_after_check c t l a u0 (or_introl Ec)) as [c' E2];
+          [rewrite Ec; exact E0|]
+      end.
+      rewrite E2 in E1. discriminate. }
+    rewrite <- Ec in *.
+    assert (Hne : chain (n_c n) <> []) by (rewrite Ec; discriminate).
+    destruct (Z.lt_ge_cases (last_block_ts (chain (n_c n))) ts) as [A|A].
+    { match type of E1 with
+      | add_block ?c ?t ?l ?a = _ =>
+        destruct (add_block_ok_after_check c t l a u0 (or_intror A) E0) as [c' E2]
+      end.
+      rewrite E2 in E1. discriminate. }
+    rewrite (add_block_time _ _ _ _ Hne A) in E1. inversion E1; subst e1.
+    split; [reflexivity|]. split; [exact Hne|]. split; [exact A|reflexivity].
+  Qed.
+
+  (* hence a refused Validate of a tick after the tip leaves the whole node as it was, and the
+     reasons are these three *)
   Lemma validate_refused_same n ts perm n' e :
+    chain (n_c n) = [] \/ last_block_ts (chain (n_c n)) < ts ->
     validate n ts perm = (n', Refused e) ->
     n' = n /\
     (e = ESameTick \/ e = EMissedTick \/
      update_utxos (ur (n_c n)) (last_block_txs (chain (n_c n))) (last_block_ts (chain (n_c n))) = Err e).
   Proof.
-    intros Hv. unfold Pool.validate in Hv. cbv zeta in Hv.
-    destruct (negb (last_block_ts (chain (n_c n)) =? 0) && (last_block_ts (chain (n_c n)) =? ts));
-      [inversion Hv; subst; split; [reflexivity|left; reflexivity]|].
-    destruct (negb (last_block_ts (chain (n_c n)) =? 0)
-              && (last_block_ts (chain (n_c n)) + s_interval S <? ts));
-      [inversion Hv; subst; split; [reflexivity|right; left; reflexivity]|].
-    destruct (update_utxos (ur (n_c n)) (last_block_txs (chain (n_c n)))
-                (last_block_ts (chain (n_c n)))) as [u0|e0] eqn:E0;
-      [|inversion Hv; subst; split; [reflexivity|right; right; reflexivity]].
-    rewrite produce_loop_spec in Hv. cbv beta iota in Hv.
-    match type of Hv with
-    | match ?X with Ok _ => _ | Err _ => _ end = _ => destruct X as [c'|e1] eqn:E1
-    end; [discriminate|].
-    match type of E1 with
-    | add_block ?c ?t ?l ?a = _ => destruct (add_block_ok_after_check c t l a u0 E0) as [c' E2]
-    end.
-    rewrite E2 in E1. discriminate.
+    intros Hts Hv. destruct (validate_refused_cases _ _ _ _ _ Hv) as [Hs|(_ & Hne & Hle & _)];
+      [exact Hs|].
+    destruct Hts as [E|A]; [contradiction|lia].
   Qed.
 
   Lemma validate_same_tick n ts perm :
@@ -701,7 +797,7 @@ Section PoolLemmas.
     inversion Hv2; subst n' d. cbn [n_c].
     unfold Chain.add_block, add_block_raw in E1.
     destruct (last_block (chain (n_c n))) as [lb|].
-    - unfold apply_block in E1.
+    - destruct (ts <=? b_ts lb); [discriminate|]. unfold apply_block in E1.
       destruct (update_utxos (ur (n_c n)) (txs lb) (b_ts lb)) as [u'|e']; [|discriminate].
       inversion E1; reflexivity.
     - inversion E1; reflexivity.
